@@ -550,17 +550,22 @@ deriving Repr, DecidableEq
 inductive FitErr where
   | runtime
   | value
+  | type
 deriving Repr, DecidableEq
 
 def FitErr.name : FitErr → String
   | .runtime => "RuntimeError"
   | .value => "ValueError"
+  | .type => "TypeError"
 
 /-- the `raise` statements of `fit_power_spectrum` before anything is fitted, in the order the code
-    executes them: fewer than 4 points, unknown loss function, bias correction with the robust
+    executes them: fewer than 4 points, an argument that is not a `PowerSpectrum` (`isPS = false`;
+    strengthening round H: the length test comes FIRST, so an object that merely has a `frequency`
+    attribute of fewer than 4 entries gets the RuntimeError), unknown loss function, bias correction with the robust
     loss, empty analytical fit range (`nAnl` = number of points inside `analytical_fit_range`) -/
-def fitValidate (npts : Nat) (loss : Loss) (bias : Bool) (nAnl : Nat) : Option FitErr :=
+def fitValidate (npts : Nat) (isPS : Bool) (loss : Loss) (bias : Bool) (nAnl : Nat) : Option FitErr :=
   if npts < 4 then some .runtime
+  else if !isPS then some .type
   else match loss with
     | .other => some .value
     | .lorentzian => if bias then some .runtime else if nAnl < 1 then some .runtime else none
@@ -886,7 +891,13 @@ def handle : List String → Option String
   | ["c11.fitvalidate", npts, loss, bias, nAnl] => do
     let npts ← nat? npts; let bias ← bool? bias; let nAnl ← nat? nAnl
     let loss : Loss := if loss == "gaussian" then .gaussian else if loss == "lorentzian" then .lorentzian else .other
-    match fitValidate npts loss bias nAnl with
+    match fitValidate npts true loss bias nAnl with
+    | some e => some e.name
+    | none => some "ok"
+  | ["c11.fitvalidate", npts, loss, bias, nAnl, isPS] => do
+    let npts ← nat? npts; let bias ← bool? bias; let nAnl ← nat? nAnl; let isPS ← bool? isPS
+    let loss : Loss := if loss == "gaussian" then .gaussian else if loss == "lorentzian" then .lorentzian else .other
+    match fitValidate npts isPS loss bias nAnl with
     | some e => some e.name
     | none => some "ok"
   | "c11.fitbounds" :: rest => do
